@@ -72,10 +72,14 @@ func runC05(c *Ctx) {
 			// R2 sibling agreement: the CRC case validates and chains
 			r.Guard("C05-R2", u, an.Call("wal.(*decoder).updateCRC"), "rec.Type == wal.crcType", an.GuardOpts{Min: 1})
 			r.ArgValues("C05-R2", u, an.Call("wal.(*decoder).updateCRC"), 0, []string{"rec.Crc"}, 1)
+			// the running checksum the record is validated against (the local holding it prints as its definition)
+			crcT := "decoder.crc.Sum32()"
+			if strings.HasSuffix(u.Name, ".ReadAll") {
+				crcT = "recv.decoder.crc.Sum32()"
+			}
 			r.Order("C05-R2", u, an.Call("wal.(*decoder).updateCRC"), []an.M{an.Call("wal/walpb.(*Record).Validate").Ok(an.NilErr)},
-				an.OrderOpts{Assume: "crc != 0", Min: 1})
-			r.ArgValues("C05-R2", u, an.Call("wal/walpb.(*Record).Validate"), 0, []string{"crc"}, 1)
-			r.StoreValues("C05-R2", u, an.LocalStore("crc"), []string{"decoder.crc.Sum32()", "recv.decoder.crc.Sum32()"}, 1)
+				an.OrderOpts{Assume: crcT + " != 0", Min: 1})
+			r.ArgValues("C05-R2", u, an.Call("wal/walpb.(*Record).Validate"), 0, []string{crcT}, 1)
 		}
 	}
 
